@@ -64,7 +64,10 @@ def build():
     u.raw("impl VhostUserHandler {")
     u.extracted_fn(hnd, "send_exit_event", within=hnd.impl_span(r'^impl<T: VhostUserBackend> VhostUserHandler<T>'),
                    sig_rw=[("R8", r'&self\b', '&self, log: &mut ExitLog')],
-                   body_rw=[("R8", r'\bhandler\.send_exit_event\(\)', 'handler.send_exit_event(log)'),
+                   body_rw=[# the same loop written with an iterator adapter (refactoring C16-5): one call per element, in order
+                            ("R21", r'self\.handlers\s*\.iter\(\)\s*\.for_each\(\|(\w+)\| \1\.send_exit_event\(\)\);',
+                             'let mut k: usize = 0; while k < self.handlers.len() { let handler = &self.handlers[k]; k += 1; handler.send_exit_event(log); }'),
+                            ("R8", r'\bhandler\.send_exit_event\(\)', 'handler.send_exit_event(log)'),
                             ("R21", r'for handler in self\.handlers\.iter\(\) \{', 'let mut k: usize = 0; while k < self.handlers.len() { let handler = &self.handlers[k]; k += 1;')],
                    loops=[dict(kind="while", nth=0, text="""            invariant k <= self.handlers@.len(), log.notified@ =~= old(log).notified@ + exit_ids(self.handlers@, k as int),
             decreases self.handlers@.len() - k,""")],
